@@ -70,7 +70,11 @@ func main() {
 	fastF := flag.String("fast", "", "file with `fn-substring<TAB>obligation-regex` lines: matching obligations get a 3 s budget (known findings)")
 	modsetOf := flag.String("modset", "", "debug: print the computed modifies set of functions whose key contains this")
 	overlayF := flag.String("overlay", "", "JSON file mapping source paths to replacement files (mutation self-tests)")
+	patternsF := flag.String("patterns", "", "comma separated package patterns (default: the gonuts packages under contract)")
 	flag.Parse()
+	if *patternsF != "" {
+		loadPatterns = strings.Split(*patternsF, ",")
+	}
 	t0 := time.Now()
 	if *outDir == "" {
 		*outDir = filepath.Join(*verif, "out", "last")
